@@ -9,8 +9,7 @@ import (
 	"github.com/bnb-chain/tss-lib/v2/crypto/modproof"
 	"github.com/bnb-chain/tss-lib/v2/crypto/mta"
 	"github.com/bnb-chain/tss-lib/v2/crypto/paillier"
-	"github.com/bnb-chain/tss-lib/v2/tss"
-
+	
 	"verif/harness/internal/val"
 	"verif/harness/internal/vc"
 )
@@ -191,17 +190,19 @@ func genC10(r *vc.Run) {
 		}
 	}
 	// ---- modular proofs on the vendored parameter sets
-	ec := tss.S256()
+	nk := r.Pick(2, 5)
+	_ = nk
+	for cni, cn := range []string{"secp256k1", "ed25519"} {
+	ec := curveByName(cn)
 	q := ec.Params().N
 	q3 := q3of(q)
 	q7 := mul(mul(q3, q3), q)
-	nk := r.Pick(2, 5)
 	for ai := 0; ai < nk; ai++ {
 		for bi := 0; bi < nk; bi++ {
 			if ai == bi {
 				continue
 			}
-			if !r.Thorough() && !(ai == 0 && bi == 1) && !(ai == 1 && bi == 0) {
+			if !r.Thorough() && !(ai == 0 && bi == 1) && !(ai == 1 && bi == 0 && cni == 0) {
 				continue
 			}
 			kA, kB := keys[ai], keys[bi]
@@ -214,9 +215,9 @@ func genC10(r *vc.Run) {
 					cv := r.Case("prove/encrypt", true, "pai_encrypt", val.I(N), val.I(m), val.I(x))
 					cA := val.AsList(cv)[1]
 					rnd := []*big.Int{g.below(q3), g.unit(N), g.below(mul(q3, kB.NTildei)), g.below(mul(q, kB.NTildei))}
-					proveThenVerify(r, "alice", "alice_prove", []val.V{val.A("secp256k1"), val.I(N), cA, val.I(kB.NTildei), val.I(kB.H1i), val.I(kB.H2i), val.I(m), val.I(x), val.Ints(rnd)},
+					proveThenVerify(r, "alice", "alice_prove", []val.V{val.A(cn), val.I(N), cA, val.I(kB.NTildei), val.I(kB.H1i), val.I(kB.H2i), val.I(m), val.I(x), val.Ints(rnd)},
 						"alice_verify", func(p val.V) []val.V {
-							return []val.V{val.A("secp256k1"), val.I(N), val.I(kB.NTildei), val.I(kB.H1i), val.I(kB.H2i), cA, p}
+							return []val.V{val.A(cn), val.I(N), val.I(kB.NTildei), val.I(kB.H1i), val.I(kB.H2i), cA, p}
 						}, true)
 					// Bob (multiplier b = m, mask y < q^5): c2 = c1^b * Enc(y; rB)
 					y := g.below(mul(q3, mul(q, q)))
@@ -226,17 +227,17 @@ func genC10(r *vc.Run) {
 					c2v, _ := vc.Exec("pai_homo_add", []val.V{val.I(N), val.AsList(c1b)[1], val.AsList(cy)[1]})
 					c2 := val.AsList(c2v)[1]
 					brnd := []*big.Int{g.below(q3), g.below(mul(q, kA.NTildei)), g.below(mul(q, kA.NTildei)), g.below(mul(q3, kA.NTildei)), g.below(mul(q3, kA.NTildei)), g.unit(N), g.below(q7)}
-					proveThenVerify(r, "bob", "bob_prove", []val.V{val.A("secp256k1"), val.B(sess), val.I(N), val.I(kA.NTildei), val.I(kA.H1i), val.I(kA.H2i), cA, c2, val.I(m), val.I(y), val.I(rB), val.A("none"), val.Ints(brnd)},
+					proveThenVerify(r, "bob", "bob_prove", []val.V{val.A(cn), val.B(sess), val.I(N), val.I(kA.NTildei), val.I(kA.H1i), val.I(kA.H2i), cA, c2, val.I(m), val.I(y), val.I(rB), val.A("none"), val.Ints(brnd)},
 						"bob_verify", func(p val.V) []val.V {
-							return []val.V{val.A("secp256k1"), val.B(sess), val.I(N), val.I(kA.NTildei), val.I(kA.H1i), val.I(kA.H2i), cA, c2, val.AsList(p)[0]}
+							return []val.V{val.A(cn), val.B(sess), val.I(N), val.I(kA.NTildei), val.I(kA.H1i), val.I(kA.H2i), cA, c2, val.AsList(p)[0]}
 						}, true)
 					if m.Sign() != 0 {
-						Bv, _ := vc.Exec("ec_base_mul", []val.V{val.A("secp256k1"), val.I(m)})
+						Bv, _ := vc.Exec("ec_base_mul", []val.V{val.A(cn), val.I(m)})
 						Bp := val.AsList(Bv)[1]
-						proveThenVerify(r, "bobwc", "bob_prove", []val.V{val.A("secp256k1"), val.B(sess), val.I(N), val.I(kA.NTildei), val.I(kA.H1i), val.I(kA.H2i), cA, c2, val.I(m), val.I(y), val.I(rB), Bp, val.Ints(brnd)},
+						proveThenVerify(r, "bobwc", "bob_prove", []val.V{val.A(cn), val.B(sess), val.I(N), val.I(kA.NTildei), val.I(kA.H1i), val.I(kA.H2i), cA, c2, val.I(m), val.I(y), val.I(rB), Bp, val.Ints(brnd)},
 							"bobwc_verify", func(p val.V) []val.V {
 								pl := val.AsList(p)
-								return []val.V{val.A("secp256k1"), val.B(sess), val.I(N), val.I(kA.NTildei), val.I(kA.H1i), val.I(kA.H2i), cA, c2, pl[0], pl[1], Bp}
+								return []val.V{val.A(cn), val.B(sess), val.I(N), val.I(kA.NTildei), val.I(kA.H1i), val.I(kA.H2i), cA, c2, pl[0], pl[1], Bp}
 							}, true)
 					}
 				}
@@ -244,12 +245,13 @@ func genC10(r *vc.Run) {
 				sq := new(big.Int).Sqrt(N)
 				frnd := []*big.Int{g.below(mul(q3, sq)), g.below(mul(q3, sq)), g.below(mul(q, kB.NTildei)), g.below(mul(q, kB.NTildei)),
 					g.below(mul(mul(q, kB.NTildei), N)), g.unit(mul(mul(q3, kB.NTildei), N)), g.below(mul(q3, kB.NTildei)), g.below(mul(q3, kB.NTildei))}
-				proveThenVerify(r, "fac", "fac_prove", []val.V{val.A("secp256k1"), val.B(sess), val.I(N), val.I(kB.NTildei), val.I(kB.H1i), val.I(kB.H2i), val.I(kA.PaillierSK.P), val.I(kA.PaillierSK.Q), val.Ints(frnd)},
+				proveThenVerify(r, "fac", "fac_prove", []val.V{val.A(cn), val.B(sess), val.I(N), val.I(kB.NTildei), val.I(kB.H1i), val.I(kB.H2i), val.I(kA.PaillierSK.P), val.I(kA.PaillierSK.Q), val.Ints(frnd)},
 					"fac_verify", func(p val.V) []val.V {
-						return []val.V{val.A("secp256k1"), val.B(sess), val.I(N), val.I(kB.NTildei), val.I(kB.H1i), val.I(kB.H2i), p}
+						return []val.V{val.A(cn), val.B(sess), val.I(N), val.I(kB.NTildei), val.I(kB.H1i), val.I(kB.H2i), p}
 					}, true)
 			}
 		}
+	}
 	}
 	for ai := 0; ai < nk; ai++ {
 		kA := keys[ai]
@@ -282,7 +284,7 @@ func genC10(r *vc.Run) {
 				return []val.V{val.I(kA.H2i), val.I(kA.H1i), val.I(kA.NTildei), pl[0], pl[1]}
 			}, true)
 		// Paillier key proof
-		for _, kk := range []*big.Int{big.NewInt(0), big.NewInt(1), g.below(q)} {
+		for _, kk := range []*big.Int{big.NewInt(0), big.NewInt(1), g.below(pow2(256))} {
 			proveThenVerify(r, "pai", "pai_prove", []val.V{skV(kA.PaillierSK), val.I(kk), pointV(kA.ECDSAPub)},
 				"pai_verify", func(p val.V) []val.V { return []val.V{val.I(N), val.I(kk), pointV(kA.ECDSAPub), p} }, false)
 		}
